@@ -281,13 +281,13 @@ pub fn main(tier: Tier, seed: u64) -> i32 {
             v.extend([1000, 1001, 1002, 4999, 5000]);
             v
         } else {
-            let mut v: Vec<usize> = (1..=40).collect();
+            let mut v: Vec<usize> = (1..=80).collect();
             v.extend([63, 64, 65, 127, 128, 129, 255, 256, 257, 1000, 1001]);
             v
         };
         for n in 2..=5usize {
             for &l in &lens {
-                if tape > 0 && (l > 40 && l < 1000) {
+                if tape > 0 && (l > 80 && l < 1000) {
                     continue;
                 }
                 if n >= 4 && l > 300 && !(tier.is_thorough() && tape == 0) {
@@ -319,6 +319,12 @@ pub fn main(tier: Tier, seed: u64) -> i32 {
             for (l, al) in [(1usize, 1usize), (8, 16), (200, 150)] {
                 jobs.push(Job { kind: "fpre", n, l, and_l: al, pattern: Pattern::Fresh, tape });
             }
+        }
+    }
+    // bucket size 4 (3100 <= triples < 280000) is cheap enough for the quick tier
+    if !tier.is_thorough() {
+        for (n, al) in [(2usize, 3099usize), (2, 3100), (3, 3100)] {
+            jobs.push(Job { kind: "aand", n, l: 1, and_l: al, pattern: Pattern::Fresh, tape: 0 });
         }
     }
     if tier.is_thorough() {
